@@ -6,7 +6,9 @@ package main
 
 import (
 	"bytes"
+	"crypto"
 	"crypto/sha256"
+	"io"
 	"fmt"
 	"strings"
 	"time"
@@ -20,6 +22,16 @@ import (
 )
 
 func init() { families["signvar"] = runSignVar }
+
+// slowSigner models a hardware token: the signature takes longer than a second, so the wall-clock
+// second changes while the update is being produced.
+type slowSigner struct{ inner crypto.Signer }
+
+func (s slowSigner) Public() crypto.PublicKey { return s.inner.Public() }
+func (s slowSigner) Sign(r io.Reader, d []byte, o crypto.SignerOpts) ([]byte, error) {
+	time.Sleep(1100 * time.Millisecond)
+	return s.inner.Sign(r, d, o)
+}
 
 func zoneOf(z string) *time.Location {
 	switch z {
@@ -55,6 +67,10 @@ func runSignVar(sc M) {
 	key := str(sc, "key")
 	cert := testCert(key, "i1", "s1")
 	time.Local = zoneOf(str(sc, "tz"))
+	var signer crypto.Signer = testKey(key)
+	if sc["slow"] == true {
+		signer = slowSigner{testKey(key)}
+	}
 	burst := num(sc, "burst")
 	if burst < 1 {
 		burst = 1
@@ -74,7 +90,7 @@ func runSignVar(sc M) {
 				attributes.Efivars = "/sys/firmware/efi/efivars"
 				e := &efivarfs.EFIFS{FSWrapper: fswrapper.NewMemoryWrapper()}
 				e.SetFS(r)
-				if err := efivarfs.Open(e).WriteSignedUpdate(v, rawDB(payload), testKey(key), cert); err != nil {
+				if err := efivarfs.Open(e).WriteSignedUpdate(v, rawDB(payload), signer, cert); err != nil {
 					return err
 				}
 				for _, c := range r.calls {
@@ -87,7 +103,7 @@ func runSignVar(sc M) {
 				}
 				return nil
 			}
-			a, m, err := signature.SignEFIVariable(v, rawDB(payload), testKey(key), cert)
+			a, m, err := signature.SignEFIVariable(v, rawDB(payload), signer, cert)
 			if err != nil {
 				return err
 			}
